@@ -498,17 +498,31 @@ def corpus():
         yield json.load(open(p))
 
 
+def chunked(ctx, stream, gen, limit, size=4000):
+    """judge a long stream in chunks (traces are kept only per chunk)"""
+    import itertools
+    tot = dict(cases=0, deviations=0)
+    while True:
+        part = list(itertools.islice(gen, size))
+        if not part:
+            break
+        judge(ctx, stream, part, limit)
+        for k in tot:
+            tot[k] += ctx.streams[stream][k]
+    ctx.streams[stream] = tot
+
+
 def explore(ctx, widen=1):
     limit = 10 if ctx.tier == 'quick' else 30
     judge(ctx, 'corpus', [c for c in corpus() if c.get('unit') == 'biprop'], limit)
     judge(ctx, 'exhaustive-2x2', list(gen_exhaustive()), limit)
     judge(ctx, 'all-zero', list(gen_all_zero()), limit)
     ctx.exhaustive = False
-    judge(ctx, 'random', list(gen_random(ctx.rng, ctx.n(2500, 40000) * widen)), limit)
-    judge(ctx, 'boundary', list(gen_boundary(ctx.rng, ctx.n(1200, 15000) * widen)), limit)
+    chunked(ctx, 'random', gen_random(ctx.rng, ctx.n(10000, 120000) * widen), limit)
+    chunked(ctx, 'boundary', gen_boundary(ctx.rng, ctx.n(4000, 40000) * widen), limit)
     kw = dict(limit=10)
-    ctx.differential('augment-step', gen_aug(ctx.rng, ctx.n(400, 4000)), aug_model_line, aug_impl, canon=aug_canon, **kw)
-    ctx.differential('adj-coef', gen_adj(ctx.rng, ctx.n(600, 6000)), adj_model_line, adj_impl, **kw)
+    ctx.differential('augment-step', gen_aug(ctx.rng, ctx.n(800, 8000)), aug_model_line, aug_impl, canon=aug_canon, **kw)
+    ctx.differential('adj-coef', gen_adj(ctx.rng, ctx.n(1500, 15000)), adj_model_line, adj_impl, **kw)
 
 
 def replay(ctx, case, stream=None):
